@@ -372,6 +372,28 @@ fn split_for(rng: &mut Rng, len: usize, bs: usize) -> usize {
     s.min(len)
 }
 
+/// Definitions prepended to the generated case files (nothing in /verif/coq changes): `LP len seed` is the
+/// number whose little-endian encoding is the `len` bytes "high byte of x_i", x_0 = seed, x_{i+1} = 5 x_i + 12345
+/// mod 2^16. coqc needs ~80 us per byte of a literal; this term costs a few ms.
+const LP_HEADER: &str = "From CC Require Import Lib.Bytes.\nFixpoint lp_bytes (n : nat) (x : N) : list N := match n with O => nil | S k => cons (N.shiftr x 8%N) (lp_bytes k (N.land (x * 5 + 12345)%N 65535%N)) end.\nDefinition LP (n seed : N) : N := le_join (lp_bytes (N.to_nat n) (N.land seed 65535%N)).";
+fn lp_fill(n: usize, seed: u16) -> Vec<u8> {
+    let mut x = seed as u32;
+    (0..n)
+        .map(|_| {
+            let b = (x >> 8) as u8;
+            x = (x * 5 + 12345) & 0xffff;
+            b
+        })
+        .collect()
+}
+/// the seed if `msg` (4 KiB or more) is such a sequence
+fn lp_seed(msg: &[u8]) -> Option<u16> {
+    if msg.len() < 4096 {
+        return None;
+    }
+    (0..256u16).map(|lo| (msg[0] as u16) << 8 | lo).find(|s| lp_fill(16, *s)[..] == msg[..16] && lp_fill(msg.len(), *s)[..] == msg[..])
+}
+
 struct DCase {
     v: u32,
     msg: Vec<u8>,
@@ -443,6 +465,20 @@ fn gen_digests(rng: &mut Rng, thorough: bool, reduced: bool) -> Vec<DCase> {
         let msg = content(rng, k, len);
         let split = split_for(rng, len, bs);
         out.push(DCase { v, msg, split, stream: "long" });
+    }
+    // C: ONE update call with a long message (split = 0: an empty update, then everything in one call): 8 KiB and
+    //    16 KiB + 1 per 512-bit-state variant; the plain streams otherwise stop at 1 KiB in quick (32 KiB in thorough). Only in
+    //    the full stream (C07 runs it once; ~10-30 ms per block in coqc). Contents: the sequence LP.
+    //    Measured under load: 16 KiB + 1 costs a shard +11 s (224/256) resp. +19 s (384/512: 1024-bit permutations), so
+    //    the wide variants get 8 KiB, and Groestl-512 12 KiB + 1 as its second length (384 differs from 512 in IV and
+    //    truncation only).
+    if !reduced {
+        for &v in VARIANTS.iter() {
+            let lens: &[usize] = match v { 384 => &[8192], 512 => &[8192, 12289], _ => &[8192, 16385] };
+            for &len in lens {
+                out.push(DCase { v, msg: lp_fill(len, rng.below(1 << 16) as u16), split: 0, stream: "one_long_update" });
+            }
+        }
     }
     out
 }
@@ -664,7 +700,12 @@ fn main() {
         by_variant[VARIANTS.iter().position(|&x| x == c.v).unwrap()] += 1;
         max_len = max_len.max(c.msg.len());
         blocks_total += (c.msg.len() + 9 + block_size(c.v) - 1) / block_size(c.v);
-        let term = format!("GD {} {} {} {} {}", c.v, c.msg.len(), nlit(&c.msg), c.split, nlit(&d));
+        let lp = if c.stream == "one_long_update" { lp_seed(&c.msg) } else { None };
+        let mlit = match lp {
+            Some(sd) => format!("(LP {} {})", c.msg.len(), sd),
+            None => nlit(&c.msg),
+        };
+        let term = format!("GD {} {} {} {} {}", c.v, c.msg.len(), mlit, c.split, nlit(&d));
         distinct.insert(term.clone());
         coq.push(term);
         let j = format!(
@@ -673,7 +714,10 @@ fn main() {
             jstr(profile),
             jstr(c.stream),
             c.msg.len(),
-            jstr(&hex(&c.msg)),
+            match lp {
+                Some(sd) => jstr(&format!("byte i = x_i >> 8, x_0 = {}, x_(i+1) = (5 x_i + 12345) mod 65536; first bytes {}", sd, hex(&c.msg[..16]))),
+                None => jstr(&hex(&c.msg)),
+            },
             c.split,
             outcome,
             d.len(),
@@ -781,13 +825,25 @@ fn main() {
         let j = srng.below(i as u64 + 1) as usize;
         order.swap(i, j);
     }
+    // the long one-update digests (each costs its shard several seconds): positions 0, 1, 2, ... i.e. different shards
+    {
+        let mut t = 0usize;
+        for p in 0..n {
+            if coq[order[p]].starts_with("GD ") && coq[order[p]].contains("(LP ") {
+                if p != t {
+                    order.swap(p, t);
+                }
+                t += 1;
+            }
+        }
+    }
     let coq: Vec<String> = order.iter().map(|&i| coq[i].clone()).collect();
     let js: Vec<String> = order.iter().map(|&i| js[i].clone()).collect();
 
     write_shards(
         &out,
         shards,
-        "From Coq Require Import NArith List.\nFrom CC Require Import Run.Runner Run.Groestl.",
+        &format!("From Coq Require Import NArith List.\nFrom CC Require Import Run.Runner Run.Groestl.\n{}", LP_HEADER),
         "gcase",
         &runner,
         &coq,
